@@ -38,9 +38,15 @@ func luaSourceName(text string) string {
 	return fmt.Sprintf("%s harness-supplied Lua plugin sha256:%x (executed symbolically)", repoMod, sha256.Sum256([]byte(text)))[:len(repoMod)+60] + "…"
 }
 
+// luaStateBox stands for a *lua.LState: the interpreter state (its globals live as long as the LState does) and the
+// value stack as far as the repository uses it (the returns of the chunks run in it).
 type luaStateBox struct {
 	ret []LVal
+	li  *luaInterp
 }
+
+// luaGoFunc stands for the *lua.LFunction made from a Go function (LState.NewFunction).
+type luaGoFunc struct{ name string }
 type luaValueBox struct{ v LVal }
 
 const (
@@ -409,46 +415,148 @@ func init() {
 		noteLuaSource(string(b), rel)
 		return mkStr(string(b))
 	})
-	add("(*"+repoMod+"/pkg/util/luamanager.LuaManager).RunLuaScript", func(ex *Exec, fr *frame, fn *ssa.Function, args []Value, pos tokenPos) Value {
-		objP := args[1].(PtrV)
-		if objP.c == nil {
-			ex.raise(fr, pos, "nil pointer dereference (RunLuaScript(nil))")
+	// luamanager.RunLuaScript runs from its SSA; the gopher-lua calls it makes are the boundary:
+	//   lua.NewState -> a fresh interpreter state with empty globals
+	//   NewFunction + CallByParam(Open*) -> the library becomes available in that state
+	//   SetGlobal -> a global of that state; DoString -> the chunk runs in that state, its returns go on the stack
+	stateOf := func(ex *Exec, fr *frame, v Value, pos tokenPos) *luaStateBox {
+		p, ok := v.(PtrV)
+		if !ok || p.c == nil {
+			ex.raise(fr, pos, "nil pointer dereference (*lua.LState)")
 		}
-		script := asTerm(args[2])
+		nv, ok := p.c.val.(NativeV)
+		if !ok {
+			ex.unsupported("*lua.LState not created by lua.NewState")
+		}
+		return nv.v.(*luaStateBox)
+	}
+	add("github.com/yuin/gopher-lua.NewState", func(ex *Exec, fr *frame, fn *ssa.Function, args []Value, pos tokenPos) Value {
+		skip := false
+		if sl, ok := args[0].(SliceV); ok {
+			for _, o := range ex.sliceElems(sl) {
+				if f, _, ok := structFieldByName(o, fn.Signature.Params().At(0).Type().(*types.Slice).Elem(), "SkipOpenLibs"); ok {
+					if t := asTerm(f); t.op == "c" && t.b {
+						skip = true
+					}
+				}
+			}
+		}
+		if !skip {
+			ex.unsupported("lua.NewState without SkipOpenLibs (the io / os / package libraries are not modelled)")
+		}
+		c := ex.newCell(types.Typ[types.Int])
+		c.val = NativeV{&luaStateBox{li: ex.newLuaState()}}
+		return PtrV{c}
+	})
+	add("(*github.com/yuin/gopher-lua.LState).NewFunction", func(ex *Exec, fr *frame, fn *ssa.Function, args []Value, pos tokenPos) Value {
+		name := ""
+		if f, ok := args[1].(FuncV); ok && f.fn != nil {
+			name = f.fn.String()
+		}
+		c := ex.newCell(types.Typ[types.Int])
+		c.val = NativeV{luaGoFunc{name}}
+		return PtrV{c}
+	})
+	add("(*github.com/yuin/gopher-lua.LState).CallByParam", func(ex *Exec, fr *frame, fn *ssa.Function, args []Value, pos tokenPos) Value {
+		box := stateOf(ex, fr, args[0], pos)
+		f, _, ok := structFieldByName(args[1], fn.Signature.Params().At(0).Type(), "Fn")
+		name := ""
+		if ok {
+			if iv, isI := f.(IfaceV); isI && iv.t != nil {
+				if p, isP := iv.v.(PtrV); isP && p.c != nil {
+					if nv, isN := p.c.val.(NativeV); isN {
+						if g, isG := nv.v.(luaGoFunc); isG {
+							name = g.name
+						}
+					}
+				}
+			}
+		}
+		switch name {
+		case "github.com/yuin/gopher-lua.OpenBase":
+			box.li.openLib("base")
+		case "github.com/yuin/gopher-lua.OpenString":
+			box.li.openLib("string")
+		case "github.com/yuin/gopher-lua.OpenTable":
+			box.li.openLib("table")
+		case "github.com/yuin/gopher-lua.OpenMath":
+			box.li.openLib("math")
+		case repoMod + "/pkg/util/luamanager.OpenJson":
+			// the json library of the scripts is not modelled (no shipped script calls it); a script that does fails
+			// on the nil global, which the native replay would contradict -> inconclusive
+		default:
+			ex.unsupported("LState.CallByParam of " + name)
+		}
+		return IfaceV{}
+	})
+	add("(*github.com/yuin/gopher-lua.LState).SetContext", icZero)
+	add("(*github.com/yuin/gopher-lua.LState).SetTop", func(ex *Exec, fr *frame, fn *ssa.Function, args []Value, pos tokenPos) Value {
+		box := stateOf(ex, fr, args[0], pos)
+		n, ok := asTerm(args[1]).constInt()
+		if !ok || n < 0 || int(n) > len(box.ret) {
+			ex.unsupported("LState.SetTop with a symbolic or growing index")
+		}
+		box.ret = box.ret[:n]
+		return nil
+	})
+	add("(*github.com/yuin/gopher-lua.LState).SetGlobal", func(ex *Exec, fr *frame, fn *ssa.Function, args []Value, pos tokenPos) Value {
+		box := stateOf(ex, fr, args[0], pos)
+		v := ex.luaFromGo(args[2], box.li)
+		box.li.globals.vars[constStr(ex, args[1], "LState.SetGlobal name")] = &v
+		return nil
+	})
+	add("(*github.com/yuin/gopher-lua.LState).DoString", func(ex *Exec, fr *frame, fn *ssa.Function, args []Value, pos tokenPos) Value {
+		box := stateOf(ex, fr, args[0], pos)
+		script := asTerm(args[1])
 		if script.op != "c" {
 			ex.unsupported("RunLuaScript with a symbolic script (ConfigMap-supplied programs are outside the claim)")
 		}
 		ex.h.funcs[luaSourceName(script.s)]++
-		li := &luaInterp{ex: ex}
-		// the object is handed to the script by the repository's own decodeValue, executed from its SSA (the
-		// gopher-lua table constructors it calls are the boundary: CreateTable / Append / RawSet*); only when the
-		// function is gone (renamed) does the value model's mirror stand in
-		var obj LVal
-		dec := fn.Pkg.Func("decodeValue")
-		if os.Getenv("VERIF_DEBUG_LUA") != "" {
-			fmt.Fprintf(os.Stderr, "RunLuaScript: pkg=%v dec=%v\n", fn.Pkg, dec)
-		}
-		if dec != nil && dec.Signature.Params().Len() == 2 {
-			saved := ex.luaLI
-			ex.luaLI = li
-			content := ex.load(objP.c.subs[0])
-			var arg Value = IfaceV{}
-			if mv, ok := content.(MapV); ok && mv.m != nil {
-				arg = IfaceV{t: objP.c.subs[0].typ, v: mv}
-			}
-			res := ex.callFunction(dec, []Value{PtrV{}, arg}, nil)
-			ex.luaLI = saved
-			obj = ex.luaFromGo(res, li)
-		} else {
-			obj = ex.goToLua(ex.load(objP.c.subs[0]), li)
-		}
-		ret, errMsg := ex.runLua(script.s, obj)
+		ret, errMsg := box.li.run(script.s)
 		if errMsg != "" {
-			return TupleV{PtrV{}, ex.newError(mkStr(errMsg))}
+			return ex.newError(mkStr(errMsg))
 		}
-		c := ex.newCell(types.Typ[types.Int])
-		c.val = NativeV{&luaStateBox{ret: ret}}
-		return TupleV{PtrV{c}, IfaceV{}}
+		box.ret = append(box.ret, ret...)
+		return IfaceV{}
+	})
+	// sync.Pool, sequentially: Get hands back what was Put last, or makes a new one
+	poolOf := func(ex *Exec, fr *frame, v Value, pos tokenPos) *Cell {
+		p, ok := v.(PtrV)
+		if !ok || p.c == nil {
+			ex.raise(fr, pos, "nil pointer dereference (*sync.Pool)")
+		}
+		return p.c
+	}
+	add("(*sync.Pool).Put", func(ex *Exec, fr *frame, fn *ssa.Function, args []Value, pos tokenPos) Value {
+		c := poolOf(ex, fr, args[0], pos)
+		if iv, ok := args[1].(IfaceV); ok && iv.t == nil {
+			return nil
+		}
+		if ex.pools == nil {
+			ex.pools = map[*Cell][]Value{}
+		}
+		ex.pools[c] = append(ex.pools[c], args[1])
+		return nil
+	})
+	add("(*sync.Pool).Get", func(ex *Exec, fr *frame, fn *ssa.Function, args []Value, pos tokenPos) Value {
+		c := poolOf(ex, fr, args[0], pos)
+		if items := ex.pools[c]; len(items) > 0 {
+			v := items[len(items)-1]
+			ex.pools[c] = items[:len(items)-1]
+			return v
+		}
+		st, ok := c.typ.Underlying().(*types.Struct)
+		if !ok || c.subs == nil {
+			ex.unsupported("sync.Pool of unexpected shape")
+		}
+		for i := 0; i < st.NumFields(); i++ {
+			if st.Field(i).Name() == "New" {
+				if f, ok := ex.load(c.subs[i]).(FuncV); ok && (f.fn != nil || f.builtin != "") {
+					return ex.callFn(fr, f, nil, pos)
+				}
+			}
+		}
+		return IfaceV{}
 	})
 	add("(*github.com/yuin/gopher-lua.LState).Get", func(ex *Exec, fr *frame, fn *ssa.Function, args []Value, pos tokenPos) Value {
 		p := args[0].(PtrV)
@@ -486,8 +594,16 @@ func init() {
 		return ex.luaLI
 	}
 	newTable := func(ex *Exec, fr *frame, fn *ssa.Function, args []Value, pos tokenPos) Value {
+		li := luaLI(ex)
+		if p, ok := args[0].(PtrV); ok && p.c != nil {
+			if nv, ok := p.c.val.(NativeV); ok {
+				if box, ok := nv.v.(*luaStateBox); ok && box.li != nil {
+					li = box.li
+				}
+			}
+		}
 		c := ex.newCell(types.Typ[types.Int])
-		c.val = NativeV{luaLI(ex).newTable()}
+		c.val = NativeV{li.newTable()}
 		return PtrV{c}
 	}
 	// pure predicates of gopher-lua's value.go, decided on the interpreter's value
